@@ -593,6 +593,12 @@ func (s *v4Server) updateStaticLease(l *dhcpsvc.Lease) (err error) {
 		return fmt.Errorf("adding static lease for %s (%s): %w", l.IP, l.HWAddr, err)
 	}
 
+	// The dynamic lease that gives its hostname up to l, if there is one.
+	var renamed *dhcpsvc.Lease
+	if l.Hostname != "" {
+		renamed = s.hostsIndex[l.Hostname]
+	}
+
 	err = s.rmDynamicLease(l)
 	if err != nil {
 		return fmt.Errorf("removing dynamic leases for %s (%s): %w", l.IP, l.HWAddr, err)
@@ -601,6 +607,14 @@ func (s *v4Server) updateStaticLease(l *dhcpsvc.Lease) (err error) {
 	err = s.addLease(l)
 	if err != nil {
 		return fmt.Errorf("adding static lease for %s (%s): %w", l.IP, l.HWAddr, err)
+	}
+
+	if renamed != nil && s.ipIndex[renamed.IP] == renamed && renamed.Hostname == "" {
+		// The lease is still there but has lost its hostname.  Generate the new
+		// one at once, the same way commitLease and ResetLeases do, since
+		// otherwise it only appears after a restart.
+		renamed.Hostname = s.uniqueGeneratedHostname(renamed)
+		s.hostsIndex[renamed.Hostname] = renamed
 	}
 
 	return nil
